@@ -459,3 +459,45 @@ func vh_C19_BuilderForks() {
 	check("builder-", outB, false)
 	vfReach("end")
 }
+
+// field-name descriptors on TWO record types that both have a field of that name, at different positions: each type
+// is sorted by ITS field, in whatever order the two sorts happen
+type c19RowSwapped struct {
+	S ComparableString
+	B ComparableOrdered[int]
+	A ComparableOrdered[int]
+}
+
+func vh_C19_TwoRecordTypes() {
+	a0, a1, b0, b1 := vfInt("a0"), vfInt("a1"), vfInt("b0"), vfInt("b1")
+	rows := []c19Row{{A: NewComparableOrdered(a0), B: NewComparableOrdered(0), S: NewComparableString("x"), Idx: 0},
+		{A: NewComparableOrdered(a1), B: NewComparableOrdered(0), S: NewComparableString("x"), Idx: 1}}
+	swapped := []c19RowSwapped{{S: NewComparableString("y"), B: NewComparableOrdered(1), A: NewComparableOrdered(b0)},
+		{S: NewComparableString("x"), B: NewComparableOrdered(0), A: NewComparableOrdered(b1)}}
+	asc := vfChoose("asc", 2) == 1
+	var out1 []c19Row
+	var out2 []c19RowSwapped
+	sort1 := func() {
+		out1 = SortedListBySortDescriptors([]SortDescriptor[c19Row]{NewFieldSortDescriptor[c19Row]("A", asc)}, rows...)
+	}
+	sort2 := func() {
+		out2 = SortedListBySortDescriptors([]SortDescriptor[c19RowSwapped]{NewFieldSortDescriptor[c19RowSwapped]("A", asc)}, swapped...)
+	}
+	if !vfNoPanic("nopanic-sortedlist", func() {
+		if vfChoose("first", 2) == 0 {
+			sort1()
+			sort2()
+		} else {
+			sort2()
+			sort1()
+		}
+	}) {
+		return
+	}
+	vfAssert("sortedlist-len", len(out1) == 2 && len(out2) == 2)
+	if len(out1) == 2 && len(out2) == 2 {
+		vfAssert("sortedlist-ordered", vfIteBool(asc, out1[0].A.Val <= out1[1].A.Val, out1[0].A.Val >= out1[1].A.Val))
+		vfAssert("sortedlist-ordered", vfIteBool(asc, out2[0].A.Val <= out2[1].A.Val, out2[0].A.Val >= out2[1].A.Val))
+	}
+	vfReach("end")
+}
